@@ -17,6 +17,7 @@ import (
 	"strconv"
 	"strings"
 	"sync"
+	"syscall"
 	"time"
 
 	"github.com/prometheus/client_golang/prometheus"
@@ -362,7 +363,7 @@ func runAgent(sc agentScript) (obs agentObs) {
 		func() {
 			defer func() {
 				if rec := recover(); rec != nil {
-					obs.panics = append(obs.panics, fmt.Sprintf("generation %d: %s", g, panicKind(rec)))
+					obs.panics = append(obs.panics, fmt.Sprintf("generation %d: %s %.200v", g, panicKind(rec), rec))
 				}
 			}()
 			ld, err := run.NewLoaderFromConfigFile(confPath, fmt.Sprintf("va%d_%d_", agentSeq, g))
@@ -457,6 +458,20 @@ func runAgent(sc agentScript) (obs agentObs) {
 			hostileLines := int64(0)
 			if sc.hostile {
 				hostileLines = sendHostile(addrs[0], rand.New(rand.NewSource(rng.Int63())))
+				if g == 0 {
+					resetStorm(addrs[0])
+					// the listener must still accept connections
+					probe, err := net.DialTimeout("tcp", addrs[0], 2*time.Second)
+					if err != nil {
+						obs.panics = append(obs.panics, "the listener stopped accepting connections after a series of reset connections: "+err.Error())
+					} else {
+						fmt.Fprintf(probe, "<14>1 2020-01-02T03:04:05Z probe app0 1 src - [probe-after-storm] %s\n", "alive")
+						mu.Lock()
+						obs.sent = append(obs.sent, "probe-after-storm|alive")
+						mu.Unlock()
+						probe.Close()
+					}
+				}
 			}
 			wg.Wait()
 			_ = hostileLines
@@ -548,7 +563,7 @@ func sendHostile(addr string, rng *rand.Rand) int64 {
 		}
 		for i := 0; i < 15; i++ {
 			var b []byte
-			switch rng.Intn(6) {
+			switch rng.Intn(7) {
 			case 0:
 				b = []byte(badLines[rng.Intn(len(badLines))])
 			case 1:
@@ -560,6 +575,10 @@ func sendHostile(addr string, rng *rand.Rand) int64 {
 				b = []byte("<14>1 2020-01-02T03:04:05Z " + strings.Repeat("H", 1+rng.Intn(70000)) + " a 1 s - oversized host")
 			case 4:
 				b = []byte("<14>1 2020-01-02T03:04:05Z h a 1 s - " + strings.Repeat("M", 1+rng.Intn(300000)))
+			case 5:
+				// well-formed shape, hostile field values: invalid UTF-8 and control bytes in the host (a metric label) and the
+				// app-name (the orchestration key, part of tag and queue directory name)
+				b = []byte("<14>1 2020-01-02T03:04:05Z ho\xff\xfest" + fmt.Sprint(rng.Intn(3)) + " ap\xc3\x28/..\x01" + fmt.Sprint(rng.Intn(3)) + " 1 src - [ ] - hostile but well-formed")
 			default:
 				b = []byte("<999>1 2020-01-02T03 h a 1 s [ unterminated")
 			}
@@ -575,6 +594,33 @@ func sendHostile(addr string, rng *rand.Rand) int64 {
 		conn.Close()
 	}
 	return n
+}
+
+// resetStorm opens and resets more connections than the process has spare file descriptors (the soft limit is lowered for
+// the duration): a listener that leaks a descriptor per reset connection runs out and stops accepting
+func resetStorm(addr string) {
+	ents, _ := os.ReadDir("/proc/self/fd")
+	var old syscall.Rlimit
+	if syscall.Getrlimit(syscall.RLIMIT_NOFILE, &old) != nil {
+		return
+	}
+	lim := uint64(len(ents) + 220) // pipelines and upstream connections created meanwhile need descriptors too
+	if lim < old.Cur {
+		syscall.Setrlimit(syscall.RLIMIT_NOFILE, &syscall.Rlimit{Cur: lim, Max: old.Max})
+		defer syscall.Setrlimit(syscall.RLIMIT_NOFILE, &old)
+	}
+	for i := 0; i < 500; i++ {
+		c, err := net.DialTimeout("tcp", addr, time.Second)
+		if err != nil {
+			time.Sleep(2 * time.Millisecond)
+			continue
+		}
+		fmt.Fprintf(c, "<14>1 2020-01-02T03:04:05Z storm storm 1 src - [storm-%d] reset follows\n", i)
+		c.(*net.TCPConn).SetLinger(0)
+		c.Close()
+		time.Sleep(time.Millisecond)
+	}
+	time.Sleep(60 * time.Millisecond)
 }
 
 // dumpGatherer sums every metric of the gatherer by name (labels and the per-run prefix removed)
